@@ -191,11 +191,10 @@ def ob_b(ob):
 
 
 # ---- shared obligation: a resumed surface-hopping run equals the uninterrupted one only if the nonadiabatic rows due after the restart are written at their absolute steps ----
-from . import C11 as _C11_mod  # noqa: E402
-
-
-@obligation(PID, "c", title="[shared with C11.d] " + [e for e in __import__("engine.ob", fromlist=["REGISTRY"]).REGISTRY["C11"] if e[1] is _C11_mod.ob_d][0][3])
+@obligation(PID, "c", title='[shared with C11.d] nonadiabatic stream, fresh and resumed runs: through the real integrator-step gate of the surface-hopping engine and the real writer, a run interrupted at any step and resumed holds the initial snapshot plus exactly the multiples of the nonadiabatic cadence with absolute labels and no unwritten rows')
 def ob_c_shared(ob):
     """a resumed surface-hopping run equals the uninterrupted one only if the nonadiabatic rows due after the restart are written at their absolute steps"""
+    from . import C11 as _m  # imported lazily: the harness modules share obligations in both directions
+
     ob.note("this obligation is the one registered as C11.d; it is also decided here because a resumed surface-hopping run equals the uninterrupted one only if the nonadiabatic rows due after the restart are written at their absolute steps")
-    _C11_mod.ob_d(ob)
+    _m.ob_d(ob)
